@@ -4,6 +4,7 @@ The property of each fix commit is given by the first matching keyword below."""
 import json, subprocess
 
 RULES = [  # (substring of the commit subject, property ids)
+ ("ContainsSencBox", "C01"),
  ("(untrusted input)", "C16"), ("segmenter example", "C11"), ("resegmenter example", "C11"), ("Fragmentify lost", "C11"),
  ("ParseReadSenc panicked", "C04"), ("lazy-mdat mode looped", "C04"),
  ("mp4ff-crop", "C10"), ("GetParameterSetsFromByteStream", "C14"),
